@@ -330,10 +330,10 @@ class KroneckerFactoredLattice(keras.layers.Layer):
       which store them. In graph mode returns a `group` op containing the
       `assign_add` ops which have to be executed to update the kernel and scale.
     """
-    finalize_kernel = self.kernel.assign_add(
-        self._final_kernel_constraints(self.kernel) - self.kernel)
-    finalize_scale = self.scale.assign_add(
-        self._final_scale_constraints(self.scale) - self.scale)
+    finalize_kernel = self.kernel.assign(
+        self._final_kernel_constraints(self.kernel))
+    finalize_scale = self.scale.assign(
+        self._final_scale_constraints(self.scale))
     return tf.group([finalize_kernel, finalize_scale])
 
   def assert_constraints(self, eps=1e-6):
